@@ -147,6 +147,17 @@ def g_connectedpixels(r, k):
         calls.append(call(img_f32(r, (260, 260), "checker"), 5.0, 0, 0, "cp:capacity:con4"))
     if k % 23 == 3:
         calls.append(call(img_f32(r, (264, 264), "isolated"), 5.0, 0, 1, "cp:capacity:con8"))
+    # (4) the label set must be allowed to grow (and move) at EVERY place a new label is made: all provisional labels of
+    #     these frames are created at one site - first pixel of a row, last pixel of a row, a middle pixel, or the first row
+    site = ("col0", "lastcol", "middle", "firstrow")[k % 4]
+    m = 16500 + int(r.integers(0, 40))
+    if site == "firstrow":
+        img = np.zeros((2, 2 * m), np.float32)
+        img[0, ::2] = 10.0
+    else:
+        img = np.zeros((2 * m, 3), np.float32)
+        img[::2, {"col0": 0, "middle": 1, "lastcol": 2}[site]] = 10.0
+    calls.append(call(img, 5.0, 0, int(r.integers(2)), "cp:growth:" + site))
     return calls
 
 
